@@ -8,6 +8,8 @@ observation and the leave times the harness supplied):
   failed-count    Stats()["failed"] ≠ number of members listed as failed
   left-count      Stats()["left"]   ≠ number of members listed as left
   members-count   Stats()["members"] ≠ number of members listed
+  failed-reaped-early  a reaper tick erased a failed member before the (overridden) reconnect timeout had passed since
+                  its LATEST failure (e.g. a member that flapped keeps the stamp of its first failure)
   reap-inexact    a reaper tick did not remove exactly the failed members past the (overridden)
                   reconnect timeout and the left members past the (overridden) tombstone timeout
   vanish-events   the members that disappeared in a step are not exactly the reap events of the step
@@ -49,7 +51,11 @@ def reapExact (s : St) (now : Nat) (ov : Name → Nat → Nat) (cur : Obs) : Opt
     (m.2.1 = .failed && decide (now - lt > ov m.1 cfg.reconnect)) ||
     (m.2.1 = .left && decide (now - lt > ov m.1 cfg.tombstone))
   let expect := (s.base.prev.members.filter (fun m => !due.contains m)).map (·.1)
-  if sortStrings (expect.map hexOfString) != sortStrings (cur.members.map fun m => hexOfString m.1) then
+  -- a FAILED member that is not yet past its timeout (counted from its LATEST failure) was erased
+  let early := (s.base.prev.members.filter (fun m => !due.contains m && m.2.1 = .failed)).filter (fun m => !cur.knows m.1)
+  if !early.isEmpty then
+    some ("failed-reaped-early", s!"reaper at {now}: failed member(s) {early.map (·.1)} erased before the reconnect timeout after their latest failure (leave times {early.map fun m => (alookup s.leaveTimes m.1).getD 0})")
+  else if sortStrings (expect.map hexOfString) != sortStrings (cur.members.map fun m => hexOfString m.1) then
     some ("reap-inexact", s!"reaper at {now}: expected to keep {expect}, implementation lists {cur.members.map (·.1)}")
   else none
 
